@@ -53,6 +53,10 @@ def mono : Bool → List Bool → Bool
 /-- the compiler's check on positional parameters -/
 def PySig.DefaultsOk (s : PySig) : Prop := mono false ((s.po ++ s.pp).map PParam.hasD) = true
 
+/-- every initializer satisfies the hypotheses of the default-rendering theorems (`DExpr.good`) -/
+def PySig.GoodDefaults (s : PySig) : Prop :=
+  ∀ p ∈ s.po ++ s.pp ++ s.kw, ∀ d ∈ p.dflt, d.good = true
+
 /-- no parameter outside the `/` prefix has a name of the form `__x` -/
 def PySig.NoElide (s : PySig) : Prop :=
   (∀ p ∈ s.pp, elide p.name = false) ∧ (∀ p ∈ s.va, elide p.name = false) ∧
@@ -60,6 +64,7 @@ def PySig.NoElide (s : PySig) : Prop :=
 
 instance (s : PySig) : Decidable s.DefaultsOk := by unfold PySig.DefaultsOk; infer_instance
 instance (s : PySig) : Decidable s.NoElide := by unfold PySig.NoElide; infer_instance
+instance (s : PySig) : Decidable s.GoodDefaults := by unfold PySig.GoodDefaults; infer_instance
 
 inductive PKind | posOnly | pos | varArg | kwOnly | kwArg
 deriving DecidableEq, Repr
@@ -156,6 +161,11 @@ structure PSt where
 
 def toPosOnly (x : Summ) : Summ := (x.1, .posOnly, x.2.2)
 
+/-- the default of a parameter must itself be well-formed text (no mis-lexed piece) -/
+def dfltLexOk : Option (List DTok) → Bool
+  | none => true
+  | some ts => LexOk ts
+
 def pstep (st : PSt) (it : Item) : Option PSt :=
   match it with
   | .slash =>
@@ -163,6 +173,7 @@ def pstep (st : PSt) (it : Item) : Option PSt :=
     | .pre => if st.acc.isEmpty then none else some { st with ph := .post, acc := st.acc.map toPosOnly }
     | _ => none
   | .param n _ d =>
+    if !dfltLexOk d then none else
     match st.ph with
     | .pre | .post =>
       if st.sd && d.isNone then none
